@@ -316,3 +316,84 @@ def rule_flush_output_conservation(ctx, cfg, r):
                    "ret ok=%s copy ok=%s): n=%s" % (okn, bool(okf), bool(okr), bool(okret), okc, tstr(n)))
     if seen == 0:
         r.fail(fob.name, "no-buffer-row", "flush_output_buffer has no row that advances out_buf_ofs")
+
+
+# ---------------------------------------------------------------------------------------------- history bound (R12.6 / R10.7)
+def rule_history_bound(ctx, cfg, r):
+    """Every match the compressor admits reaches back at most `dict.size` bytes — the amount of history the dictionary holds,
+    which a Full flush (and a fresh stream) sets to zero.  Necessary for "a Full flush cuts history" and for "distances never
+    reach before the start of the data"."""
+    from rules import c11
+    from terms import ISet
+    c = ctx.crate(cfg)
+    E = ctx.effects(cfg)
+
+    def is_size(t):
+        return t[0] == "load" and paths.place_is_field(t[1], "size", "DictOxide")
+
+    def bounded_by_size(t):
+        while t[0] == "cast":
+            t = t[1]
+        if is_size(t):
+            return True
+        if t[0] == "pure" and t[1] == "min":
+            return any(bounded_by_size(a) for a in t[2])
+        return False
+    adm = c11.admission_terms(ctx, cfg)
+    for rt, (xs, ung) in sorted(adm.items()):
+        ctx.touched(rt)
+        if not xs:
+            r.fail(rt, "history:admission-site", "no distance admission test / find_match call found in %s" % rt)
+        for x in xs:
+            if bounded_by_size(x):
+                r.ok(rt, "history:admission", "distances admitted against %s, which is at most dict.size" % tstr(x))
+            else:
+                r.fail(rt, "history:admission", "distances in %s are admitted against %s, which is not bounded by dict.size: a match can reach "
+                       "behind the history the dictionary holds (before the start of the stream, or across a Full flush)" % (rt.split("::")[-1], tstr(x)))
+    # run-length branch of compress_normal: the previous byte is used only when there is history
+    cn = c.fn("deflate::core::compress_normal")
+    RLE = c.const_int("deflate_flags::TDEFL_RLE_MATCHES")
+    ev = paths.Evaluator(c, effects=E, max_paths=20000, max_blocks=70)
+    rows = ev.run(cn)
+    heads = sorted({x.outcome[1] for x in rows if x.outcome[0] == "backedge"})
+    allrows = list(rows)
+    for h in heads:
+        ev2 = paths.Evaluator(c, effects=E, max_paths=20000, max_blocks=70, stop_blocks=[q for q in heads if q != h])
+        allrows += ev2.run(cn, start_bb=h)
+    n = 0
+    for x in allrows:
+        rle = None
+        for a, s in x.atoms:
+            if a[0] == "bin" and a[1] == "Ne" and a[2][0] == "bin" and a[2][1] == "BitAnd" and is_const(a[2][3]) and const_val(a[2][3]) == RLE and \
+                    paths.is_load_of(a[2][2], "flags", "ParamsOxide"):
+                rle = s.single() if rle is None else rle
+        if rle != 1:
+            continue
+        fresh = [k for k, v in x.store.items() if isinstance(k, tuple) and k and k[0] == "local" and k[1] == 0 and
+                 (cn.local_name(k[2]) or "") == "cur_match_dist" and is_const(v) and const_val(v) == 1]
+        if not fresh:
+            continue
+        n += 1
+        # current value(s) of dict.size on this path: the entry load, or what the path has stored into the field
+        sizes = [t for t in cmp_operands_of(x) if is_size(t)]
+        sizes += [e[2] for e in x.stores() if e[1][0] == "fld" and e[1][2] == "size" and e[1][3].endswith("DictOxide")]
+        has_hist = any(not x.facts.get(t).contains(0) for t in sizes)
+        if has_hist:
+            r.ok(cn.name, "history:rle", "the run-length branch takes a distance-1 match only under dict.size != 0")
+        else:
+            r.fail(cn.name, "history:rle", "the run-length branch of compress_normal can emit a distance-1 match while dict.size may be 0 "
+                   "(first byte of a stream, or first byte after a Full flush): the match reaches behind the history",
+                   where=first_span(x), path=row_path(x))
+    if n < 1:
+        r.fail(cn.name, "history:rle-rows", "no path of the run-length branch producing a distance-1 match was found")
+
+
+def cmp_operands_of(x):
+    out = []
+    for a, _ in x.atoms:
+        if a[0] == "bin":
+            out.append(a[2])
+            out.append(a[3])
+        else:
+            out.append(a)
+    return out
